@@ -36,23 +36,27 @@ VARIABLES feats,      \* chosen optional relations
 vars == <<feats, installed, models, pendDel, tables, sig, refsGone, hist>>
 
 Apps == {"p", "pq", "r"}
-Feats == {"ownM2M", "farM2M", "crossFK", "crossM2M"}
+(* customM2M (only together with ownM2M): A.rel is declared with db_table = 'p_links', and the
+   name its table would have had by default, p_a_rel, is the table of another app's model
+   (pq.D) *)
+Feats == {"ownM2M", "farM2M", "crossFK", "crossM2M", "customM2M"}
 AllModels == [p |-> {"A", "B"}, pq |-> {"D", "E"}, r |-> {"C", "F"}]
-TableOf(a, m) == CASE m = "A" -> "p_a" [] m = "B" -> "p_a_x" [] m = "D" -> "p_a_more"
-                   [] m = "E" -> "pq_e" [] m = "C" -> "r_c" [] OTHER -> "r_f"
+TableOfF(a, m, fs) == CASE m = "A" -> "p_a" [] m = "B" -> "p_a_x"
+                       [] m = "D" -> (IF "customM2M" \in fs THEN "p_a_rel" ELSE "p_a_more")
+                       [] m = "E" -> "pq_e" [] m = "C" -> "r_c" [] OTHER -> "r_f"
 
 (* automatically created many-to-many tables, by owning model *)
 M2MOf(a, m, fs) ==
-    (IF m = "A" /\ "ownM2M" \in fs THEN {"p_a_rel"} ELSE {})
+    (IF m = "A" /\ "ownM2M" \in fs THEN {IF "customM2M" \in fs THEN "p_links" ELSE "p_a_rel"} ELSE {})
     \cup (IF m = "A" /\ "farM2M" \in fs THEN {"p_a_far"} ELSE {})
     \cup (IF m = "F" /\ "crossM2M" \in fs THEN {"r_f_many"} ELSE {})
-OwnedByModel(a, m, fs) == {TableOf(a, m)} \cup M2MOf(a, m, fs)
+OwnedByModel(a, m, fs) == {TableOfF(a, m, fs)} \cup M2MOf(a, m, fs)
 OwnedByApp(a, ms, fs) == UNION { OwnedByModel(a, m, fs) : m \in ms }
 
 (* relations INTO app p held by models of r: they have to go when p goes *)
 RefsIntoP(fs) == fs \cap {"crossFK", "crossM2M"}
 
-Init == /\ feats \in SUBSET Feats
+Init == /\ feats \in { fs \in SUBSET Feats : "customM2M" \in fs => "ownM2M" \in fs }
         /\ installed = Apps
         /\ models = AllModels
         /\ pendDel = {}
